@@ -66,6 +66,7 @@ func cmdVerify(args []string) {
 	verbose := fs.Bool("v", false, "print every obligation")
 	all := fs.Bool("all", false, "verify every function")
 	kinds := fs.String("kinds", "", "only these obligation kinds (comma separated)")
+	match := fs.String("match", "", "only obligations whose name or text contains this substring")
 	fs.Parse(args)
 	w, err := LoadWorld(*repo, *verif)
 	if err != nil {
@@ -95,7 +96,12 @@ func cmdVerify(args []string) {
 	}
 	jobs := make(chan struct{}, 16)
 	total, ok := 0, 0
-	only := func(o *Obligation) bool { return len(kindSet) == 0 || kindSet[o.Kind] }
+	only := func(o *Obligation) bool {
+		if *match != "" && !strings.Contains(o.Name, *match) && !strings.Contains(o.Text, *match) {
+			return false
+		}
+		return len(kindSet) == 0 || kindSet[o.Kind]
+	}
 	type item struct {
 		fc     *FnCtx
 		header string
@@ -161,7 +167,7 @@ func cmdVerify(args []string) {
 				continue
 			}
 			if o.Status != "unsat" || *verbose {
-				fmt.Printf("    %-8s %-45s %s:%d  %s [%s %.2fs]\n", o.Status, o.Name, shortFile(o.Pos.Filename), o.Pos.Line, truncate(o.Text, 100), o.Solver, o.TimeS)
+				fmt.Printf("    %-8s %-45s %s:%d %s %s [%s %.2fs]\n", o.Status, o.Name, shortFile(o.Pos.Filename), o.Pos.Line, o.Via, truncate(o.Text, 100), o.Solver, o.TimeS)
 			}
 		}
 	}
